@@ -6,6 +6,8 @@
 package vfmem
 
 import (
+	"bytes"
+	"encoding/gob"
 	"encoding/json"
 	"errors"
 	"os"
@@ -263,20 +265,16 @@ func (a *Adapter) View(f func(db *DB)) {
 func (a *Adapter) Snapshot() []byte {
 	a.mu.Lock()
 	defer a.mu.Unlock()
-	b, err := json.Marshal(a.db)
-	if err != nil {
-		panic(err)
-	}
-	return b
+	return SnapshotLocked(a.db)
 }
 
 // SnapshotLocked serialises DB; for use inside Observe (lock already held).
 func SnapshotLocked(db *DB) []byte {
-	b, err := json.Marshal(db)
-	if err != nil {
+	var buf bytes.Buffer
+	if err := gob.NewEncoder(&buf).Encode(db); err != nil {
 		panic(err)
 	}
-	return b
+	return buf.Bytes()
 }
 
 // SnapshotToFile writes the snapshot atomically.
@@ -307,7 +305,7 @@ func WriteSnapshotLocked(db *DB, path string) error {
 // Restore replaces DB content with the snapshot.
 func (a *Adapter) Restore(b []byte) error {
 	db := newDB()
-	if err := json.Unmarshal(b, db); err != nil {
+	if err := gob.NewDecoder(bytes.NewReader(b)).Decode(db); err != nil {
 		return err
 	}
 	if db.Users == nil {
